@@ -36,6 +36,7 @@ from ..core import Case, Prop
 from .. import sysutil as su
 
 SEP = " ## "
+NOREF = ("date", "enum", "str")          # input-only variables: never read by the generated formulas
 O = lambda y, m, d: dt.date(y, m, d).toordinal()
 NAMES = ["a", "b", "c", "d", "e", "g", "h", "k"]
 NEWNAMES = ["n1", "n2", "n3"]
@@ -75,6 +76,8 @@ def impl(case: Case) -> str:
         bwd[k] = real.simulate(real.systems[k], plan)
     sims["bwd"] = bwd
     sims["l3"] = [real.simulate(real.systems[k], plan, spiral=3) for k in range(n)]
+    sims["meta"] = [su.meta_of(t) for t in real.systems]
+    sims["tags"] = [getattr(t, "ofv_tag", None) for t in real.systems]
     pristine = su.Real(spec)
     sims["pristine"] = pristine.simulate(pristine.systems[0], plan)
     return text + SEP + su.hexjson(sims)
@@ -107,8 +110,22 @@ def complete(cd) -> bool:
     return cd["vt"] is not None and cd["entity"] is not None and cd["dp"] is not None
 
 
+def norm_meta(m):
+    """what `Variable.set_label / set_reference / set_documentation` make of the declared values"""
+    import textwrap
+    m = m or {}
+    ref = m.get("reference")
+    if isinstance(ref, dict):
+        ref = list(ref["t"])
+    elif isinstance(ref, str):
+        ref = [ref]
+    doc = m.get("documentation")
+    return {"label": m.get("label") or None, "reference": ref or None,
+            "documentation": textwrap.dedent(doc) if doc else None, "unit": m.get("unit") or None}
+
+
 def new_var(cd):
-    return {"vt": cd["vt"], "default": cd["default"] if cd["default"] is not None else su.type_default_tok(cd["vt"]),
+    return {"meta": norm_meta(cd.get("meta")), "label_open": False, "vt": cd["vt"], "default": cd["default"] if cd["default"] is not None else su.type_default_tok(cd["vt"]),
             "entity": cd["entity"], "dp": cd["dp"], "end": cd["end"], "si": cd["si"], "neutralized": False,
             "formulas": declared_formulas(cd), "optional": [], "has_baseline": False, "last": "new"}
 
@@ -185,7 +202,11 @@ class SpecSys:
                 opt = [(d, f) for d, f in old["formulas"] if d >= first and d not in redecl]
             else:
                 keep, opt = list(old["formulas"]), []
+            nm = norm_meta(x.get("meta"))
             self.vars[x["name"]] = {
+                # (an attribute declared empty IS redefined: `label = ""` gives no label)
+                "meta": {k2: nm[k2] if k2 in (x.get("meta") or {}) else old["meta"][k2] for k2 in nm},
+                "label_open": old["label_open"] and "label" not in (x.get("meta") or {}),
                 "vt": x["vt"] or old["vt"], "default": x["default"] if x["default"] is not None else old["default"],
                 "entity": x["entity"] or old["entity"], "dp": x["dp"] or old["dp"], "end": end,
                 "si": x["si"] or old["si"], "neutralized": False, "formulas": sorted(keep + decl), "optional": opt,
@@ -194,13 +215,13 @@ class SpecSys:
         if k == "neu":
             if x not in self.vars:
                 return False
-            self.vars[x] = dict(self.vars[x], neutralized=True, last="neu")
+            self.vars[x] = dict(self.vars[x], neutralized=True, last="neu", label_open=True)   # (its label gets a prefix)
             return True
         if k == "ann":
             if x not in self.vars:
                 return False
             v = self.vars[x]
-            self.vars[x] = dict(v, formulas=[(d, ("A", f)) for d, f in v["formulas"]],
+            self.vars[x] = dict(v, label_open=v["label_open"], formulas=[(d, ("A", f)) for d, f in v["formulas"]],
                                 optional=[(d, ("A", f)) for d, f in v["optional"]], last="ann")
             return True
         if any(u["name"] not in self.base_params for u in x):
@@ -212,7 +233,7 @@ class SpecSys:
         return True
 
 
-SNAP = re.compile(r"^n=(.*?)/e=(.*?)/P=(.*?)/p=(.*?)/v=(.*)$")
+SNAP = re.compile(r"^n=(.*?)/e=(.*?)/P=(.*?)/u=(.*?)/r=(.*?)/p=(.*?)/v=(.*)$")
 VARF = ("own", "bl", "via", "vt", "default", "entity", "dp", "end", "si", "neutralized", "formulas", "at")
 
 
@@ -223,17 +244,17 @@ def parse_snap(s):
     names = [x for x in m.group(1).split(",") if x]
     ents = [tuple(x.split("^")) for x in m.group(2).split(",") if x]
     reads = {}
-    for x in m.group(4).split(","):
+    for x in m.group(6).split(","):
         if x:
             k, v = x.rsplit("=", 1)
             n, d = k.split("@")
             reads[(n, int(d))] = None if v == "-" else v
     vars_ = {}
-    for x in m.group(5).split("+"):
+    for x in m.group(7).split("+"):
         if x:
             name, rest = x.split("(", 1)
             vars_[name] = dict(zip(VARF, rest[:-1].split(",")))
-    return {"names": names, "ents": ents, "P": m.group(3), "reads": reads, "vars": vars_}
+    return {"names": names, "ents": ents, "P": m.group(3), "unbound": m.group(4), "root": m.group(5), "reads": reads, "vars": vars_}
 
 
 def parse_stages(text):
@@ -281,10 +302,17 @@ def check_system(k, spec: SpecSys, snap, qs):
             v["optional"] = []
         # the formula in force at each query date, from the (now settled) dated formulas
         ats = o["at"].split("^")
-        for q, a in zip(qs, ats):
+        oldest = min(v["formulas"])[1] if v["formulas"] else None
+        if ats[0] != ("-" if oldest is None else ftok(oldest)):
+            return ("derived-definition:formula-in-force", f"system {k}: the oldest formula of {name} is {ats[0]}, expected {'-' if oldest is None else ftok(oldest)}")
+        for q, a in zip(qs, ats[1:]):
             f = su.formula_in_force(v, q)
             if a != ("-" if f is None else ftok(f)):
                 return ("derived-definition:formula-in-force", f"system {k}: {name} at {q} runs {a}, expected {'-' if f is None else ftok(f)}")
+    for ent in snap["ents"]:
+        exp_names = "~".join(sorted(n for n, v in spec.vars.items() if v["entity"] == ent[0]))
+        if len(ent) > 3 and ent[3] != exp_names:
+            return ("derived-definition:names", f"system {k}: get_variables({ent[0]}) gives {ent[3]}, the declared changes give {exp_names}")
     for (n, d), val in snap["reads"].items():
         e = spec.read(n, d)
         if e != val:
@@ -299,7 +327,7 @@ def observed(snap_text):
     a = parse_snap(snap_text)
     if a is None:
         return snap_text
-    return (tuple(a["names"]), tuple(a["ents"]), tuple(sorted(a["reads"].items(), key=str)),
+    return (tuple(a["names"]), tuple(a["ents"]), a["unbound"], tuple(sorted(a["reads"].items(), key=str)),
             tuple((n, tuple((f, x) for f, x in v.items() if f not in ("own", "bl"))) for n, v in sorted(a["vars"].items())))
 
 
@@ -421,6 +449,8 @@ def oracle(case: Case, impl_out: str):
         # -- (2) the derived system is the original plus the declared changes
         for j in range(len(cur)):
             snap = parse_snap(cur[j])
+            if snap["unbound"] != "T":
+                return ("entity-resolution", "the entity objects handed to the constructor of the base got bound to a system")
             for name, o in snap["vars"].items():
                 if o["via"] != "ok":
                     return ("entity-resolution", f"system {j}: its entities resolve {name} to another object ({o['via']})")
@@ -436,10 +466,22 @@ def oracle(case: Case, impl_out: str):
     plan = spec["sim"]
     known = None
     for k, s in enumerate(systems):
+        if sims["tags"][k] != sims["tags"][0]:
+            return ("derived-definition:system-attribute", f"system {k} shows the attribute ofv_tag = {sims['tags'][k]!r}, the base {sims['tags'][0]!r}")
+        if not s.judged:
+            continue
+        for name, v in s.vars.items():
+            got = dict(zip(("label", "reference", "documentation", "unit"), sims["meta"][k][name]))
+            for f, e in v["meta"].items():
+                if f == "label" and (v["label_open"] or v["neutralized"]):
+                    continue
+                if got[f] != e:
+                    return (f"derived-definition:{f}", f"system {k}: {name}.{f} is {got[f]!r} but the declared changes give {e!r}")
+    for k, s in enumerate(systems):
         fwd, bwd, l3 = sims["fwd"][k], sims["bwd"][k], sims["l3"][k]
         if fwd != bwd:
             return ("simulation-order-dependent", f"system {k}: {fwd} when simulated first to last, {bwd} last to first")
-        if k == 0 and fwd != sims["pristine"]:
+        if k == 0 and fwd != sims["pristine"] and not any(op[0] == "M" and op[1] == 0 for op in spec["ops"]):
             return ("origin-calculation-changed", f"base computes {fwd}; a pristine copy built from scratch computes {sims['pristine']}")
         if not s.judged:
             continue
@@ -492,6 +534,21 @@ class Gen:
         self.r = rng
         self.fid = 0
         self.fdefs = {}
+        self.entity_of = {}       # the base's variables: their entity
+
+    def meta(self):
+        """descriptive attributes, in their various spellings"""
+        r = self.r
+        m = {}
+        if r.random() < 0.6:
+            m["label"] = r.choice(["Label one", "Étiquette", ""])
+        if r.random() < 0.5:
+            m["reference"] = r.choice(["https://law.example/1", ["art. 1", "art. 2"], {"t": ["a", "b"]}])
+        if r.random() < 0.4:
+            m["documentation"] = r.choice(["    Indented\n    text.\n", "One line."])
+        if r.random() < 0.4:
+            m["unit"] = r.choice(["currency", "/1"])
+        return m or None
 
     def expr(self, lower, dp, params, depth=0):
         r = self.r
@@ -508,7 +565,10 @@ class Gen:
             return ["m"]
         if k == "p":
             return ["p", r.choice(params)]
-        return ["v", r.choice(lower), r.choice(["s", "s", "j", "l", "a"])]
+        n = r.choice(lower)
+        if r.random() < 0.3 and n in self.entity_of:
+            return ["w", n, r.choice(["s", "s", "j", "l", "a"]), self.entity_of[n]]     # written for the entity it has NOW
+        return ["v", n, r.choice(["s", "s", "j", "l", "a"])]
 
     def formula(self, lower, dp, params):
         self.fid += 1
@@ -543,6 +603,14 @@ class Gen:
             cd["formulas"] = [(1, self.formula(lower, dp, params))]
         if r.random() < 0.06:      # an input-only date variable (never referenced)
             cd.update(vt="date", formulas=[], si=None, default=r.choice([None, f"d{O(2000, 2, 29)}"]))
+        elif r.random() < 0.05:    # ... an enumeration, a string
+            cd.update(vt="enum", formulas=[], si=None, default=r.choice(["Ea", "Eb", "Ec"]))
+        elif r.random() < 0.04:
+            cd.update(vt="str", formulas=[], si=None, default=r.choice(["Sx", "Shello"]))
+        if r.random() < 0.45:
+            cd["meta"] = self.meta()
+            if cd["meta"] is None:
+                del cd["meta"]
         return cd
 
     def update_def(self, name, cur, lower, params):
@@ -552,14 +620,21 @@ class Gen:
         cd = {"name": name, "vt": None, "entity": None, "dp": None, "default": None, "end": None, "si": None, "formulas": []}
         if vt in ("float", "int") and r.random() < 0.15:
             cd["vt"] = "int" if vt == "float" else "float"
-        if vt != "date" and r.random() < 0.35:
+        if vt in ("enum", "str"):
+            if r.random() < 0.35:
+                cd["default"] = r.choice(["Ea", "Eb", "Ec"]) if vt == "enum" else r.choice(["Sy", "Sz"])
+        elif vt != "date" and r.random() < 0.35:
             cd["default"] = r.choice("TF") if vt == "bool" else str(r.randint(-3, 9))
         if dp != "eternity":
             if r.random() < 0.2:
                 cd["end"] = r.choice(ENDS)
             if vt in ("float", "int") and r.random() < 0.15:
                 cd["si"] = r.choice(su.SIS)
-            if vt != "date":
+            if r.random() < 0.3:
+                m = self.meta()
+                if m:
+                    cd["meta"] = m
+            if vt not in ("date", "enum", "str"):
                 for s in r.sample(STARTS, r.choice([0, 1, 1, 1, 2])):
                     cd["formulas"].append((s, self.formula(lower, dp, params)))
         return cd
@@ -581,14 +656,15 @@ class Gen:
         names = NAMES[:nv]
         vars_, info = [], {}
         for i, n in enumerate(names):
-            lower = [x for x in names[:i] if info[x][0] != "date"]
+            lower = [x for x in names[:i] if info[x][0] not in NOREF]
             cd = self.classdef(n, lower, pnames, ents)
             vars_.append(cd)
             info[n] = (cd["vt"], cd["dp"])
+            self.entity_of[n] = cd["entity"]
         rank = {n: i for i, n in enumerate(names + NEWNAMES)}
 
         def lower_of(name):
-            return [x for x in names if rank[x] < rank.get(name, 99) and info[x][0] != "date"]
+            return [x for x in names if rank[x] < rank.get(name, 99) and info[x][0] not in NOREF]
 
         def mod(allow_par=True):
             k = r.choices(["add", "upd", "rep", "neu", "ann", "par"], [2, 4, 2, 3, 3, 3 if allow_par else 0])[0]
@@ -620,6 +696,10 @@ class Gen:
                     cd.update(vt=info[n][0], default=r.choice([None, str(r.randint(-3, 9))]))
                 elif info[n][0] == "date" and cd["vt"] != "date":
                     cd.update(vt="date", formulas=[], si=None, default=None)
+                if info[n][0] in ("enum", "str") and cd["vt"] != info[n][0]:
+                    cd.update(vt=info[n][0], formulas=[], si=None, default="Eb" if info[n][0] == "enum" else "Sw")
+                elif info[n][0] not in ("enum", "str") and cd["vt"] in ("enum", "str"):
+                    cd.update(vt="float", default=None)
                 if r.random() < 0.04 and cd["formulas"] and min(d for d, _ in cd["formulas"]) > 366:
                     cd["end"] = min(d for d, _ in cd["formulas"]) - 1
                 return ("rep", cd)
@@ -654,7 +734,7 @@ class Gen:
                 cds = []
                 for n in sorted(r.sample(enames, r.randint(0, 2))):
                     nm = n if r.random() < 0.95 else r.choice(names)               # (an existing variable: refused)
-                    cds.append(self.classdef(nm, [x for x in names if info[x][0] != "date"],
+                    cds.append(self.classdef(nm, [x for x in names if info[x][0] not in NOREF],
                                              pnames + [q for q, _ in xp if q not in pnames and q != "z"], ents,
                                              dp=r.choice(["month", "year"])))
                 cds.sort(key=lambda c: c["name"])
@@ -673,7 +753,8 @@ class Gen:
         nsys = 1
         for i in range(r.randint(1, 6)):
             if i == 0 or r.random() < 0.45 or nsys == 1 or (runner and r.random() < 0.5):
-                src = 0 if (i == 0 or r.random() < 0.4 or (runner and r.random() < 0.6)) else r.randrange(nsys)
+                src = 0 if (i == 0 or r.random() < 0.4 or (runner and r.random() < 0.6)) else \
+                    nsys - 1 if r.random() < 0.5 else r.randrange(nsys)          # (deep chains: from the latest)
                 if runner and r.random() < 0.7:
                     ops.append(runner_op(src))
                 elif r.random() < 0.45:
@@ -682,7 +763,8 @@ class Gen:
                     ops.append(("R", src, [mod() for _ in range(r.choice([0, 1, 1, 2, 2, 3]))]))
                 nsys += 1          # (a failing derivation or a cache hit creates nothing: later indices may err, on both sides)
             else:
-                ops.append(("M", r.randrange(1, nsys), mod()))
+                # (modifying the BASE once something derives from it is outside the statement: not claimed)
+                ops.append(("M", 0 if r.random() < 0.06 else r.randrange(1, nsys), mod()))
         # queries: boundary dates of what the history mentions
         cand = {O(2018, 1, 1), O(2018, 3, 1)}
         for cd in vars_ + [cd for op in ops for cd in cds_of(op)]:
@@ -705,7 +787,7 @@ class Gen:
         inputs = []
         for n in r.sample(names, min(len(names), r.randint(0, 3))):
             vt, dp = info[n]
-            if vt == "date" or dp == "eternity":
+            if vt in NOREF or dp == "eternity":
                 continue
             cnt = su.COUNT[next(c["entity"] for c in vars_ if c["name"] == n)]
             vals = [r.randint(0, 1) for _ in range(cnt)] if vt == "bool" else [r.randint(-4, 20) for _ in range(cnt)]
@@ -750,7 +832,19 @@ def case_of(spec, tags=(), origin="gen") -> Case:
             kinds.add("runner:extensions" if op[3] else "runner:no-extension")
             if op[2] and op[3] and not any(m[0] == "par" for _, ms in op[2] for m in ms) and any(ps for _, _, ps in op[3]):
                 kinds.add("runner:shared-tree+ext-params")
-    return Case(line=su.fmt_line(spec), tags=tuple(sorted(kinds)) + tuple(tags), origin=origin)
+    depth, d = 0, {0: 0}
+    n = 1
+    for op in spec["ops"]:
+        if op[0] in ("C", "R", "T"):
+            d[n] = d.get(op[1], 0) + 1 + (len(op[2]) if op[0] == "T" else 0)
+            depth = max(depth, d[n])
+            n += 1
+    if depth >= 3:
+        kinds.add("depth>=3")
+    base_modified = any(op[0] == "M" and op[1] == 0 for op in spec["ops"])
+    if base_modified:
+        kinds.add("base-modified")
+    return Case(line=su.fmt_line(spec), tags=tuple(sorted(kinds)) + tuple(tags), origin=origin, claimed=not base_modified)
 
 
 MALFORMED = [
